@@ -147,7 +147,10 @@ impl RtpsStatefulWriter {
                 if reader_proxy.reliability() == ReliabilityKind::Reliable
                     && acknack_submessage.count() > reader_proxy.last_received_acknack_count()
                 {
-                    let acked_changes = acknack_submessage.reader_sn_state().base() - 1;
+                    let acked_changes = acknack_submessage
+                        .reader_sn_state()
+                        .base()
+                        .saturating_sub(1);
                     reader_proxy.acked_changes_set(acked_changes);
                     reader_proxy.requested_changes_set(acknack_submessage.reader_sn_state().set());
 
